@@ -796,7 +796,15 @@ class Gen:
                 self.feats.add("local_" + q)
             decls.append((q, t, st, n, arr))
             getattr(env, k).append(n)
-        lines = [Line("fhead", head, 0, idx, fname=fname, nparams=npar, static=static),
+        line_head = head
+        if "wrapped_head" not in self.avoid and self.x.random() < 0.15:
+            # the parameter list continues on a second line (after a comma of the function's own list)
+            commas = [i for i, (t, c) in enumerate(head) if c == "op:comma" and _depth_at(head, i) == 1 and head[i + 1] == SP]
+            if commas:
+                i = self.x.choice(commas)
+                line_head = head[:i + 1] + [("\n", "ws:nl"), TAB(self.x.choice([2, 2, 3, 4]))] + head[i + 2:]
+                self.feats.add("wrapped_head")
+        lines = [Line("fhead", line_head, 0, idx, fname=fname, nparams=npar, static=static),
                  Line("fopen", [("{", "punct")], 0, idx)]
         if decls:
             end = max(vis_width("\t" + (q + " " if q else "") + t) for q, t, _, _, _ in decls)
